@@ -1,5 +1,6 @@
 """Verification of one function of the current tree against its sidecar contract."""
 import itertools
+import os
 import time
 import traceback
 import z3
@@ -37,6 +38,10 @@ def concretize(model, v, st, depth=0):
         if h.kind == 'obj':
             d = {'__class__': h.cls.qualname if h.cls else getattr(h, 'ghost_id', 'object')}
             for k, x in h.fields.items():
+                if isinstance(x, LazyUnion):
+                    x = x.alts[0][1]
+                    if x is ABSENT:
+                        continue
                 d[k] = concretize(model, x, st, depth + 1)
             return d
         if h.kind == 'list':
@@ -116,7 +121,9 @@ def verify_contract(reg, c, timeout_ms=None, seed=0, collect_paths=False):
     for q, ls in c.options.get('callee_loops', {}).items():
         E.loop_specs[q] = ls
     reg.force_inline = set(c.inline) | {c.target}
+    reg.opaque_now = set(c.opaque)
     reg.active = c
+    E.deadline = time.time() + float(os.environ.get('VERIF_UNIT_BUDGET_S', '900'))
     a = fi.node.args
     pnames = [x.arg for x in a.posonlyargs + a.args] + [x.arg for x in a.kwonlyargs]
     if a.vararg:
@@ -193,6 +200,7 @@ def verify_contract(reg, c, timeout_ms=None, seed=0, collect_paths=False):
         results.append(Result(short + '.engine', 'structure', 'engine ran', 'undecided', detail=info['reason']))
     finally:
         reg.force_inline = set()
+        reg.opaque_now = set()
         reg.active = None
     # vacuity guards
     if info['status'] == 'ok':
